@@ -56,6 +56,10 @@ THEOREMS = [
     "Nix.C07.link_values",
     "Nix.C07.session_sampled_index",
     "Nix.C07.session_set_index",
+    # the hand-written model computes what the decision trees read from the source compute (Generated/DimShape.lean)
+    "Nix.C07.sampled_index_shape",
+    "Nix.C07.range_index_shape",
+    "Nix.C07.set_index_shape",
     # sampling_interval <= 0, stated exactly
     "Nix.C07.negative_interval_mirror",
     "Nix.C07.negative_interval_meets",
